@@ -785,9 +785,80 @@ fn state_type_twin(thorough: bool, acc: &mut Acc) {
     merge(acc, res);
 }
 
+/// C05 companion: single steps at and beyond the range of the Duration clock (2^64, 2^65, 1e30 s, f32::MAX - all
+/// finite and non-negative) inside short histories of finite shapes: the step counts as time spent (the clock
+/// saturates), the animation is over, later set_state calls freeze / resume / blend from the terminal values.
+fn c05_huge_step(acc: &mut Acc) {
+    let p = pool(0);
+    let finite: Vec<usize> = (0..p.len()).filter(|&i| RefShape::new(&p[i].1).total.is_some()).take(8).collect();
+    for (n, &xi) in finite.iter().enumerate() {
+        let yi = finite[(n + 1) % finite.len()];
+        let cfg = Config::new(xi, yi, 0);
+        for (hi, &big) in [18_446_744_073_709_551_616.0f32, 36_893_488_147_419_103_232.0, 1.0e30, f32::MAX].iter().enumerate() {
+            let hs: Vec<Vec<Op>> = vec![
+                vec![Op::Adv(0.25), Op::Adv(big), Op::Adv(0.25)],
+                vec![Op::Adv(big), Op::Set(S4::U1), Op::Adv(1.0), Op::Set(S4::X), Op::Adv(0.25)],
+                vec![Op::Adv(0.25), Op::Set(S4::Y), Op::Adv(big), Op::Set(S4::X), Op::Adv(0.25)],
+                vec![Op::Adv(big), Op::Set(S4::Y), Op::Adv(0.25), Op::Set(S4::U2), Op::Set(S4::Y)],
+            ];
+            for (k, h) in hs.iter().enumerate() {
+                for len in 1..=h.len() {
+                    acc.histories += 1;
+                    check_history(&cfg, S4::X, &h[..len], Prop::C05, (1u64 << 51) | (n as u64) << 16 | (hi as u64) << 8 | (k as u64) << 4 | len as u64, acc);
+                }
+            }
+        }
+    }
+}
+
+/// C07 companion: a state whose timeline is already over when it is entered (a negative delay that consumes every
+/// cycle: total duration <= 0). Completion is reported at once, and - as whenever completion is reported - the values
+/// are the terminal values and no longer move.
+fn c07_over_on_entry(acc: &mut Acc) {
+    let x = TlSpec { kfs: vec![kf(0.0, Some(-64.0), Some(-100), None, None), kf(1.0, Some(96.0), Some(250), None, None)], default_easing: 0, timing: Timing::new(1.0, 0.0, Rep::None, false) };
+    let timings = [Timing::new(1.0, -1.0, Rep::None, false), Timing::new(1.0, -2.0, Rep::None, false), Timing::new(0.5, -1.0, Rep::Times(1), false), Timing::new(0.5, -1.5, Rep::Times(1), true), Timing::new(0.25, -8.0, Rep::Times(3), false)];
+    let pre: [&[Op]; 5] = [&[], &[Op::Adv(0.25)], &[Op::Adv(8.0)], &[Op::Set(S4::U1), Op::Adv(0.25)], &[Op::Adv(0.25), Op::Set(S4::U1)]];
+    let post: [&[Op]; 4] = [&[Op::Adv(0.0)], &[Op::Adv(0.25), Op::Adv(8.0)], &[Op::Set(S4::U1), Op::Adv(0.25), Op::Set(S4::Y), Op::Adv(0.25)], &[Op::Set(S4::Y), Op::Adv(1.0)]];
+    for (ti, tm) in timings.iter().enumerate() {
+        let y = TlSpec { kfs: vec![kf(0.0, Some(40.0), Some(-40), None, None), kf(1.0, Some(120.0), Some(80), None, None)], default_easing: 0, timing: *tm };
+        // terminal values: the 100% keyframe, or the original 0% keyframe when reversing
+        let (ta, tk) = if tm.reverse { (40.0f32, -40) } else { (120.0f32, 80) };
+        for (pi, pr) in pre.iter().enumerate() {
+            for (qi, po) in post.iter().enumerate() {
+                let mut a = StateAnimatorBuilder::<S4, PTimeline>::new().from_state(S4::X).from_values(initial_values()).on(S4::X, x.builder()).on(S4::Y, y.builder()).build();
+                let mut h: Vec<Op> = pr.to_vec();
+                for op in pr.iter() {
+                    apply(&mut a, op);
+                }
+                h.push(Op::Set(S4::Y));
+                a.set_state(&S4::Y);
+                acc.histories += 1;
+                for step in 0..=po.len() {
+                    if step > 0 {
+                        apply(&mut a, &po[step - 1]);
+                        h.push(po[step - 1]);
+                    }
+                    acc.ops += 1;
+                    acc.checks += 1;
+                    acc.nontrivial += 1;
+                    let in_y = *a.current_state() == S4::Y;
+                    let v = a.current_values();
+                    let bad = if !a.is_ended() { Some("not-reported") } else if v.a.to_bits() != ta.to_bits() || v.k != tk { Some("values-not-terminal") } else { None };
+                    if let Some(what) = bad {
+                        acc.sink.add(&format!("over-on-entry:{what}"), (1u64 << 52) | (ti as u64) << 16 | (pi as u64) << 8 | (qi as u64) << 4 | step as u64, || {
+                            (format!("Y = cycle {} s, delay {} s, {:?}, reverse {} (total duration <= 0); after [{}]: state {:?} (Y: {in_y}) is_ended={} values {:?}, terminal values a={ta} k={tk}", tm.cycle, tm.delay, tm.rep, tm.reverse, hname(&h), a.current_state(), a.is_ended(), v), json!({"companion": "over-on-entry", "Y": y.to_json(), "X": x.to_json(), "history": h.iter().map(|o| o.to_json()).collect::<Vec<_>>()}))
+                        });
+                        break;
+                    }
+                }
+            }
+        }
+    }
+}
+
 /// C06 companion with astronomically long (but finite, exactly representable) steps: a 2^36 s timeline; one
-/// advance(2^35) against two advance(2^34), one advance(2^36) against two advance(2^35), also with zero-length
-/// advances in between - values, is_ended and the clock must agree exactly.
+/// advance(2^35) against two advance(2^34), one advance(2^36) against two advance(2^35), ... up to steps of 2^63,
+/// 2^64, 2^65, 2^100 s and f32::MAX (the Duration clock saturates), also with zero-length advances in between - values, is_ended and the clock must agree exactly.
 fn c06_huge_steps(acc: &mut Acc) {
     let total = 68_719_476_736.0f32; // 2^36 s
     let spec = TlSpec {
@@ -796,22 +867,34 @@ fn c06_huge_steps(acc: &mut Acc) {
         timing: Timing::new(total, 0.0, Rep::None, false),
     };
     let build = || StateAnimatorBuilder::<S4, PTimeline>::new().from_state(S4::X).from_values(P::default()).on(S4::X, spec.builder()).build();
-    for (ci, &(whole, parts)) in [(34_359_738_368.0f32, 2usize), (68_719_476_736.0, 2), (68_719_476_736.0, 4), (137_438_953_472.0, 2), (1_099_511_627_776.0, 4)].iter().enumerate() {
+    for (ci, &(whole, parts)) in [(34_359_738_368.0f32, 2usize), (68_719_476_736.0, 2), (68_719_476_736.0, 4), (137_438_953_472.0, 2), (1_099_511_627_776.0, 4),
+        // at and beyond the range of the Duration clock (2^64 s): the clock saturates, in one step or in several
+        (9_223_372_036_854_775_808.0, 2), (18_446_744_073_709_551_616.0, 2), (36_893_488_147_419_103_232.0, 2), (36_893_488_147_419_103_232.0, 4), (1.2676506e30, 4), (f32::MAX, 2)].iter().enumerate() {
         for zeros in [false, true] {
-            let mut a = build();
-            for _ in 0..parts {
-                a.advance(whole / parts as f32);
-                if zeros {
-                    a.advance(0.0);
+            let run = std::panic::catch_unwind(std::panic::AssertUnwindSafe(|| {
+                let mut a = build();
+                for _ in 0..parts {
+                    a.advance(whole / parts as f32);
+                    if zeros {
+                        a.advance(0.0);
+                    }
                 }
-            }
-            let mut b = build();
-            b.advance(whole);
+                // one more ordinary frame after the clock has (possibly) saturated
+                a.advance(0.0);
+                let mut b = build();
+                b.advance(whole);
+                (observe(&a), observe(&b))
+            }));
             acc.histories += 2;
             acc.ops += parts as u64 + 1;
             acc.checks += 1;
             acc.nontrivial += 1;
-            let (oa, ob) = (observe(&a), observe(&b));
+            let Ok((oa, ob)) = run else {
+                acc.sink.add("panic-in-advance:huge-steps", (1u64 << 49) | (ci as u64) << 1 | zeros as u64, || {
+                    (format!("{parts} x advance({:e}) or one advance({whole:e}) panicked (timeline of {total:e} s)", whole / parts as f32), json!({"whole": whole, "parts": parts, "zero_advances_between": zeros, "timeline": spec.to_json()}))
+                });
+                continue;
+            };
             if oa.values.bits() != ob.values.bits() || oa.ended != ob.ended || oa.time != ob.time {
                 acc.sink.add("schedule-dependence:huge-steps", (1u64 << 49) | (ci as u64) << 1 | zeros as u64, || {
                     (format!("{parts} x advance({:e}) gives {:?} ended={} clock {:?}; one advance({whole:e}) gives {:?} ended={} clock {:?} (timeline of {total:e} s)", whole / parts as f32, oa.values, oa.ended, oa.time, ob.values, ob.ended, ob.time), json!({"whole": whole, "parts": parts, "zero_advances_between": zeros, "timeline": spec.to_json()}))
@@ -1359,6 +1442,33 @@ fn explore_deviations(cfg: &Config, init: S4, ops: &[Op], len: usize, k: usize, 
     count
 }
 
+/// The companion families of a property (cases outside the pool x history space; their replay files carry no
+/// pool configuration and are replayed by re-running the - small - companions).
+fn companions(prop: Prop, thorough: bool, acc: &mut Acc) {
+    if prop == Prop::C07 {
+        c07_nondyadic(acc);
+        c07_long_run(acc);
+        c07_over_on_entry(acc);
+    }
+    if prop == Prop::C06 {
+        c06_tiny_steps(acc);
+        c06_huge_steps(acc);
+    }
+    if prop == Prop::C04 || prop == Prop::C05 {
+        nondyadic_companion(prop, thorough, acc);
+    }
+    if prop == Prop::C05 || prop == Prop::C07 {
+        state_type_twin(thorough, acc);
+    }
+    if prop == Prop::C05 {
+        c05_huge_step(acc);
+        c05_omitted_from_values(acc);
+    }
+    if prop == Prop::C04 {
+        c04_drift(acc);
+    }
+}
+
 pub fn run(run: Run, prop: Prop) -> ! {
     let thorough = run.is_thorough();
     let bfs_cap: usize = if thorough { 150_000 } else { 12_000 };
@@ -1463,26 +1573,7 @@ pub fn run(run: Run, prop: Prop) -> ! {
     );
     let _ = explore_full;
     let mut acc = acc;
-    if prop == Prop::C07 {
-        c07_nondyadic(&mut acc);
-        c07_long_run(&mut acc);
-    }
-    if prop == Prop::C06 {
-        c06_tiny_steps(&mut acc);
-        c06_huge_steps(&mut acc);
-    }
-    if prop == Prop::C04 || prop == Prop::C05 {
-        nondyadic_companion(prop, thorough, &mut acc);
-    }
-    if prop == Prop::C05 || prop == Prop::C07 {
-        state_type_twin(thorough, &mut acc);
-    }
-    if prop == Prop::C05 {
-        c05_omitted_from_values(&mut acc);
-    }
-    if prop == Prop::C04 {
-        c04_drift(&mut acc);
-    }
+    companions(prop, thorough, &mut acc);
     let id = format!("{prop:?}");
     let mut cov = Map::new();
     cov.insert("states".into(), json!(acc.histories));
@@ -1509,6 +1600,15 @@ pub fn run(run: Run, prop: Prop) -> ! {
 
 pub fn replay(case: &Value, prop: Prop) -> bool {
     let c = &case["config"];
+    if c["X"]["pool_index"].is_null() || !case["twin"].is_null() || !case["companion"].is_null() {
+        // a companion-family case: re-run the property's companions and report the signatures they raise
+        let mut acc = Acc::default();
+        companions(prop, false, &mut acc);
+        for (s, v) in &acc.sink.map {
+            println!("{s}: {}", v.desc);
+        }
+        return acc.sink.map.is_empty();
+    }
     let cfg = Config::with_third(c["X"]["pool_index"].as_u64().unwrap_or(0) as usize, c["Y"]["pool_index"].as_u64().unwrap_or(0) as usize, c["easing_variant"].as_u64().unwrap_or(0) as u8, c["U2"]["pool_index"].as_u64().map(|z| z as usize));
     let init = *S4_ALL.iter().find(|x| Some(format!("{x:?}").as_str()) == case["initial_state"].as_str()).unwrap_or(&S4::X);
     let h: Vec<Op> = case["history"].as_array().map(|a| a.iter().map(Op::from_json).collect()).unwrap_or_default();
